@@ -30,7 +30,10 @@ const shimImport = "github.com/uhppoted/uhppote-core/verifshim/vs"
 // selector redirection tables: package -> name -> shim name ("" = leave as is: pure helper)
 var redirect = map[string]map[string]string{
 	"net": {
-		"ListenUDP": "ListenUDP", "Dialer": "Dialer", "UDPConn": "UDPConn",
+		"ListenUDP": "ListenUDP", "Dialer": "Dialer", "UDPConn": "UDPConn", "TCPConn": "TCPConn",
+		"Dial": "Dial", "DialTimeout": "DialTimeout", "DialUDP": "DialUDP", "DialTCP": "DialTCP", "ListenPacket": "ListenPacket",
+		// interfaces the simulated sockets satisfy
+		"Conn": "", "PacketConn": "",
 		// pure helpers and types
 		"UDPAddr": "", "TCPAddr": "", "IP": "", "IPv4": "", "IPv4len": "", "IPv4bcast": "", "IPv4zero": "", "IPNet": "", "IPMask": "",
 		"UDPAddrFromAddrPort": "", "TCPAddrFromAddrPort": "", "ParseIP": "", "HardwareAddr": "", "Addr": "", "Error": "", "OpError": "",
